@@ -37,7 +37,7 @@
 EXTENDS C01_Values
 CONSTANTS HashMode,   \* "perfect" | "real" | "collide"
           Bug         \* "none" | "DropField" | "StaleHash" | "CopyKeepsHash" | "NaNIdentity"
-                      \* | "ClassMemo" | "PickleKeepsHash"
+                      \* | "ClassMemo" | "PickleKeepsHash" | "NoIdentityPath"
 VARIABLES objs, dict, last, cmemo
 
 NoHash == [t |-> "None"]
@@ -64,14 +64,34 @@ EvGet(j)           == Ev("DictGet", j, 0, "", "", 0, NoneV)
 Res(k, b, h, exc, v, proj) == [k |-> k, b |-> b, h |-> h, exc |-> exc, v |-> v, proj |-> proj]
 
 (***************************************************************************)
+(* The meaning of o_i == o_j for tracked objects: "T" / "F" / "U" (either  *)
+(* answer allowed, see C01_Values!Eq3V).  An object is equal to itself,    *)
+(* whatever its fields hold: the relation is reflexive.  For trees without *)
+(* a NaN this is PyEq on the trees, as it always was.                      *)
+(***************************************************************************)
+EqObjs(os, i, j) == IF i = j THEN "T" ELSE EqTop(os[i].tree, os[j].tree)
+EqM(S, i, j) == EqObjs(S.objs, i, j)
+\* does the observed answer b contradict the meaning m?
+Contradicts(b, m) == (m = "T" /\ ~b) \/ (m = "F" /\ b)
+
+(***************************************************************************)
 (* M-layer of the dict under test: a Python dict whose keys obey ==        *)
 (***************************************************************************)
-Lookup(S, tree) ==
-    LET hits == { e \in 1..Len(S.dict) : PyEq(S.objs[S.dict[e].key].tree, tree) }
-    IN IF hits = {} THEN -1 ELSE S.dict[CHOOSE e \in hits : \A e2 \in hits : e <= e2].v
+HitsT(S, i) == { e \in 1..Len(S.dict) : EqM(S, S.dict[e].key, i) = "T" }
+HitsU(S, i) == { e \in 1..Len(S.dict) : EqM(S, S.dict[e].key, i) = "U" }
+FirstOf(hits) == CHOOSE e \in hits : \A e2 \in hits : e <= e2
+\* is v an allowed answer of dict.get(o_i, -1)?
+GetAllowed(S, i, v) ==
+    LET ht == HitsT(S, i)  hu == HitsU(S, i) IN
+    IF hu = {} THEN v = (IF ht = {} THEN -1 ELSE S.dict[FirstOf(ht)].v)
+    ELSE \/ \E e \in ht \cup hu : v = S.dict[e].v
+         \/ (ht = {} /\ v = -1)
+\* a put whose key is "U"-equal to a key in the dict and "T"-equal to none: the model
+\* cannot tell whether the dict grew; such steps are not generated and not judged
+PutAmbiguous(S, i) == HitsT(S, i) = {} /\ HitsU(S, i) # {}
 
 DictAfterPut(S, i, v) ==
-    LET hits == { e \in 1..Len(S.dict) : PyEq(S.objs[S.dict[e].key].tree, S.objs[i].tree) }
+    LET hits == HitsT(S, i)
     IN IF hits = {} THEN Append(S.dict, [key |-> i, v |-> v])
        ELSE [e \in 1..Len(S.dict) |-> IF e \in hits THEN [S.dict[e] EXCEPT !.v = v] ELSE S.dict[e]]
 
@@ -80,10 +100,10 @@ DictAfterPut(S, i, v) ==
 (***************************************************************************)
 HashRespectsEqOn(os) ==
     \A a, b \in 1..Len(os) :
-        (os[a].hk = 1 /\ os[b].hk = 1 /\ PyEq(os[a].tree, os[b].tree)) => os[a].hid = os[b].hid
+        (os[a].hk = 1 /\ os[b].hk = 1 /\ EqObjs(os, a, b) = "T") => os[a].hid = os[b].hid
 DictKeysDistinctOn(S) ==
     \A a, b \in 1..Len(S.dict) :
-        a # b => ~PyEq(S.objs[S.dict[a].key].tree, S.objs[S.dict[b].key].tree)
+        a # b => EqM(S, S.dict[a].key, S.dict[b].key) # "T"
 
 ValidIdx(S, i) == i \in 1..Len(S.objs)
 Creates(ev) == ev.op \in {"New", "Copy", "Replace", "Touch"}
@@ -101,6 +121,7 @@ Judgeable(S, ev, r) ==
                                      ELSE Len(r.proj) = Len(S.objs)
     /\ \A k \in 1..Len(r.proj) : r.proj[k].tree.t = "N" /\ Decidable(r.proj[k].tree)
     /\ \A k \in 1..Len(r.proj) : Hashable(r.proj[k].tree)
+    /\ ev.op = "DictPut" => ~PutAmbiguous(S, ev.i)
 
 (***************************************************************************)
 (* Class-level state.  An undecorated class is *used* when the generated   *)
@@ -172,10 +193,10 @@ Check(S, ev, r) ==
     ELSE IF ~HashStableStep(S, ev, r) THEN "HashStable"
     ELSE IF ev.op = "Hash" /\ r.k # "ok" THEN "HashRaises"
     ELSE IF ev.op \in {"Eq", "Ne"} /\ r.k # "ok" THEN "EqRaises"
-    ELSE IF ev.op = "Eq" /\ (r.b = 1) # PyEq(S.objs[ev.i].tree, S.objs[ev.j].tree) THEN "EqIsPyEq"
-    ELSE IF ev.op = "Ne" /\ (r.b = 1) # ~PyEq(S.objs[ev.i].tree, S.objs[ev.j].tree) THEN "NeIsNotPyEq"
+    ELSE IF ev.op = "Eq" /\ Contradicts(r.b = 1, EqM(S, ev.i, ev.j)) THEN "EqIsPyEq"
+    ELSE IF ev.op = "Ne" /\ Contradicts(r.b # 1, EqM(S, ev.i, ev.j)) THEN "NeIsNotPyEq"
     ELSE IF ev.op \in {"DictPut", "DictGet"} /\ r.k # "ok" THEN "DictRaises"
-    ELSE IF ev.op = "DictGet" /\ r.v # Lookup(S, S.objs[ev.i].tree) THEN "DictFindsEqual"
+    ELSE IF ev.op = "DictGet" /\ ~GetAllowed(S, ev.i, r.v) THEN "DictFindsEqual"
     ELSE IF ~HashRespectsEqOn(PostObjs(S, ev, r)) THEN "HashRespectsEq"
     ELSE "OK"
 
@@ -198,17 +219,20 @@ ForeignHash(tree) == [t |-> "F", h |-> HashFn(tree)]
 \* generated <cls>_hash / Expression.__hash__: return the cached value if there is one
 ImplHash(cm, o) == IF o.hashed = 1 THEN o.hid ELSE HashFn(EffTree(cm, o.tree))
 
-\* == on field values as the interpreter performs it: containers elementwise, nested
-\* expression nodes through the generated __eq__ again (no identity, nothing cached)
-RECURSIVE ImplValEq(_, _), ImplNodeEq(_, _)
-ImplValEq(a, b) ==
+\* == on field values as the interpreter performs it: containers elementwise (an element
+\* that IS the other element is equal: the same float NaN object; elt says the values are
+\* compared as container elements), nested expression nodes through the generated __eq__
+\* again (taken to be two objects, nothing cached)
+RECURSIVE ImplValEq(_, _, _), ImplNodeEq(_, _)
+ImplValEq(a, b, elt) ==
     IF a.t # b.t THEN FALSE
     ELSE CASE a.t = "T" -> /\ Len(a.c) = Len(b.c)
-                           /\ \A i \in 1..Len(a.c) : ImplValEq(a.c[i], b.c[i])
+                           /\ \A i \in 1..Len(a.c) : ImplValEq(a.c[i], b.c[i], TRUE)
            [] a.t = "M" -> /\ Len(a.kv) = Len(b.kv)
                            /\ \A i \in 1..Len(a.kv) : \E j \in 1..Len(b.kv) :
-                                 a.kv[i].k = b.kv[j].k /\ ImplValEq(a.kv[i].v, b.kv[j].v)
+                                 a.kv[i].k = b.kv[j].k /\ ImplValEq(a.kv[i].v, b.kv[j].v, TRUE)
            [] a.t = "N" -> ImplNodeEq(a, b)
+           [] a.t = "K" -> IF a.k = "nan" /\ b.k = "nan" THEN elt /\ a.id = b.id ELSE PyEq(a, b)
            [] OTHER     -> PyEq(a, b)
 
 \* the number of leading fields the fieldwise comparison looks at
@@ -220,8 +244,9 @@ ImplNodeEq(a, b) ==
     IF TmplOf(a.cls) = "legacy" THEN
         \* Expression.__eq__: (identity) -> hash inequality -> is_equal
         IF HashFn(a) # HashFn(b) THEN FALSE
+        \* (tuple of init args == tuple of init args)
         ELSE a.cls = b.cls /\ Len(a.f) = Len(b.f)
-             /\ \A i \in 1..Len(a.f) : ImplValEq(a.f[i], b.f[i])
+             /\ \A i \in 1..Len(a.f) : ImplValEq(a.f[i], b.f[i], TRUE)
     ELSE
         \* generated __eq__: (identity) -> class -> hash inequality -> legacy fallback -> fieldwise
         IF a.cls # b.cls THEN FALSE
@@ -229,21 +254,33 @@ ImplNodeEq(a, b) ==
         ELSE IF HashFn(a) # HashFn(b) THEN FALSE
         ELSE IF TmplOf(a.cls) = "legacy-child" THEN
              \* init_arg_names differ from the parent's field names: is_equal over init args
-             Len(a.f) = Len(b.f) /\ \A i \in 1..Len(a.f) : ImplValEq(a.f[i], b.f[i])
-        ELSE \A i \in 1..ComparedFields(a.cls) : ImplValEq(a.f[i], b.f[i])
+             Len(a.f) = Len(b.f) /\ \A i \in 1..Len(a.f) : ImplValEq(a.f[i], b.f[i], TRUE)
+        ELSE \A i \in 1..ComparedFields(a.cls) : ImplValEq(a.f[i], b.f[i], FALSE)
+
+\* Bug = "NoIdentityPath": o == o without the "self is other" exit - class, hash and
+\* legacy tests pass trivially, then field by field on one and the same object: a
+\* container finds its elements identical, a field holding a node asks that node again
+RECURSIVE SelfValEq(_, _)
+SelfValEq(v, elt) ==
+    CASE v.t = "K" -> v.k # "nan" \/ elt
+      [] v.t = "T" -> \A i \in 1..Len(v.c) : SelfValEq(v.c[i], TRUE)
+      [] v.t = "M" -> \A i \in 1..Len(v.kv) : SelfValEq(v.kv[i].v, TRUE)
+      [] v.t = "N" -> elt \/ \A i \in 1..Len(v.f) :
+                              SelfValEq(v.f[i], TmplOf(v.cls) \in {"legacy", "legacy-child"})
+      [] OTHER -> TRUE
 
 \* top level: identity fast path and *cached* hashes
 ImplEq(S, i, j) ==
     LET a == S.objs[i].tree  b == S.objs[j].tree IN
-    IF i = j THEN TRUE
+    IF i = j THEN (IF Bug = "NoIdentityPath" THEN SelfValEq(a, FALSE) ELSE TRUE)
     ELSE IF TmplOf(a.cls) # "legacy" /\ a.cls # b.cls THEN FALSE
     ELSE IF ImplHash(S.cm, S.objs[i]) # ImplHash(S.cm, S.objs[j]) THEN FALSE
     ELSE IF TmplOf(a.cls) = "legacy" THEN
-         a.cls = b.cls /\ Len(a.f) = Len(b.f) /\ \A k \in 1..Len(a.f) : ImplValEq(a.f[k], b.f[k])
+         a.cls = b.cls /\ Len(a.f) = Len(b.f) /\ \A k \in 1..Len(a.f) : ImplValEq(a.f[k], b.f[k], TRUE)
     ELSE IF Bug = "NaNIdentity" /\ a.cls = "NaN" THEN FALSE
     ELSE IF IsLegacyChild(a.cls) /\ LegacyDecision(S.cm, a.cls) THEN
-         Len(a.f) = Len(b.f) /\ \A k \in 1..Len(a.f) : ImplValEq(a.f[k], b.f[k])
-    ELSE \A k \in 1..ComparedFields(a.cls) : ImplValEq(a.f[k], b.f[k])
+         Len(a.f) = Len(b.f) /\ \A k \in 1..Len(a.f) : ImplValEq(a.f[k], b.f[k], TRUE)
+    ELSE \A k \in 1..ComparedFields(a.cls) : ImplValEq(a.f[k], b.f[k], FALSE)
 
 \* which tracked objects get their hash cached by evaluating o_i == o_j
 \* (Python tries type(o_j).__eq__ first when type(o_j) is a proper subclass of type(o_i);
@@ -294,10 +331,26 @@ Mappable(tree) == ~AnyNode(tree, NoHandler) /\ ~HasFrac(tree)
 \* the harness' rebuilding identity mapper returns fresh Variable nodes, hence fresh parents
 Rebuilds(tree) == AnyNode(tree, VarLike)
 
+\* an object that comes out of a pickle is made of new float objects (the k-th live object
+\* gets the names 100 k + old name; the catalogue has no tree with one NaN object twice;
+\* k = 0: all names erased)
+RECURSIVE NewNaNs(_, _)
+NewNaNs(v, k) ==
+    CASE v.t = "K" -> IF v.k = "nan" THEN [v EXCEPT !.id = IF k = 0 THEN 0 ELSE 100 * k + (v.id % 100)]
+                      ELSE v
+      [] v.t = "T" -> [v EXCEPT !.c = [i \in 1..Len(v.c) |-> NewNaNs(v.c[i], k)]]
+      [] v.t = "M" -> [v EXCEPT !.kv = [i \in 1..Len(v.kv) |-> [v.kv[i] EXCEPT !.v = NewNaNs(v.kv[i].v, k)]]]
+      [] v.t = "N" -> [v EXCEPT !.f = [i \in 1..Len(v.f) |-> NewNaNs(v.f[i], k)]]
+      [] OTHER -> v
+Arrived(v, k) == IF HasNaN(v) THEN NewNaNs(v, k) ELSE v
+\* the same tree up to the names of the NaN objects
+SameShape(a, b) == a = b \/ (HasNaN(a) /\ HasNaN(b) /\ NewNaNs(a, 0) = NewNaNs(b, 0))
+
 Predict(S, ev) ==
     LET os == S.objs IN
     CASE ev.op = "New" ->
-           LET t == Norm(ev.spec) IN
+           LET t0 == Norm(ev.spec)
+               t  == IF IsErr(t0) \/ ev.md = "" THEN t0 ELSE Arrived(t0, Len(os) + 1) IN
            IF IsErr(t) THEN Res("err", 0, NoHash, t.s, 0, Proj(os))
            \* an unpickled object starts without a cached hash, whatever happened to it in
            \* the interpreter that pickled it
@@ -327,7 +380,8 @@ Predict(S, ev) ==
            LET src == os[ev.i]
                cp  == IF Bug = "CopyKeepsHash" \/ (Bug = "PickleKeepsHash" /\ ev.md = "pickle")
                       THEN [src EXCEPT !.hk = src.hashed]
-                      ELSE FreshObj(src.tree)
+                      ELSE FreshObj(IF ev.md = "pickle" THEN Arrived(src.tree, Len(os) + 1)
+                                    ELSE src.tree)
            IN Res("new", 0, NoHash, "", 0, Proj(Append(os, cp)))
       [] ev.op = "Replace" ->
            LET a == os[ev.i].tree  b == os[ev.j].tree IN
@@ -365,7 +419,7 @@ Predict(S, ev) ==
                S2  == [S EXCEPT !.objs = os2]
                hits == { e \in 1..Len(S.dict) :
                            /\ ImplHash(S.cm, os2[S.dict[e].key]) = ImplHash(S.cm, os2[ev.i])
-                           /\ ImplEq(S2, S.dict[e].key, ev.i) }
+                           /\ (S.dict[e].key = ev.i \/ ImplEq(S2, S.dict[e].key, ev.i)) }
            IN Res("ok", 0, NoHash, "", IF hits = {} THEN -1
                   ELSE S.dict[CHOOSE e \in hits : \A e2 \in hits : e <= e2].v, Proj(os2))
 
@@ -376,13 +430,18 @@ Predict(S, ev) ==
 ModelView(S) == [S EXCEPT !.objs = [k \in 1..Len(S.objs) |->
                                       [S.objs[k] EXCEPT !.hid = HashFn(S.objs[k].tree)]]]
 Drift(S, ev, r) ==
-    LET p == Predict(ModelView(S), ev) IN
+    LET p == Predict(ModelView(S), ev)
+        \* where the meaning leaves the answer open ("U": it hangs on object identities the
+        \* trees do not show) the transcription's guess is not compared
+        open == \/ ev.op \in {"Eq", "Ne"} /\ EqM(S, ev.i, ev.j) = "U"
+                \/ ev.op = "DictGet" /\ HitsU(S, ev.i) # {}
+    IN
     \/ (ev.op # "Touch" /\ p.k # r.k)
-    \/ p.b # r.b
-    \/ p.v # r.v
+    \/ (~open /\ p.b # r.b)
+    \/ (~open /\ p.v # r.v)
     \/ Len(p.proj) # Len(r.proj)
     \/ \E k \in 1..Len(p.proj) : k <= Len(r.proj) /\
-          \/ p.proj[k].tree # r.proj[k].tree
+          \/ ~SameShape(p.proj[k].tree, r.proj[k].tree)
           \/ (p.proj[k].hashed # r.proj[k].hashed /\ ~(ev.op = "Touch" /\ k = ev.i))
 
 (***************************************************************************)
